@@ -48,6 +48,7 @@ type c17Sess struct {
 type c17World struct {
 	db        *Database
 	withIdx   bool
+	rows      int // committed rows at the start
 	committed *c13Slots
 }
 
@@ -158,19 +159,24 @@ func (w *c17World) rollbackStmt(s *c17Sess) {
 // with or without the index, and the sessions A and B.
 func c17Fixture(maxRows int) (w *c17World, a, b *c17Sess) {
 	n := nd.IntRange("n", 0, maxRows)
-	w = &c17World{withIdx: nd.Bool("index")}
+	w = &c17World{withIdx: nd.Bool("index"), rows: n}
 	var base *Table
 	w.db, base = c15SessionFixture()
 	w.committed, _ = c15Fill(base, n, w.withIdx)
 	return w, c17NewSess(w.db), c17NewSess(w.db)
 }
 
-// VerifC17Isolation: A: START TRANSACTION, then 1..2 DML statements; after each
-// of them A reads its staged rows and B reads the rows committed before.
+// VerifC17Isolation: A: START TRANSACTION, then 1..2 DML statements (one on a
+// table of 3 rows); after each of them A reads its staged rows and B reads the
+// rows committed before.
 func VerifC17Isolation() {
 	w, a, b := c17Fixture(nd.Bound(2, 3))
 	w.startTransaction(a)
-	for i := 0; i < 2; i++ {
+	stmts := 2
+	if w.rows > 2 {
+		stmts = 1
+	}
+	for i := 0; i < stmts; i++ {
 		s := strconv.Itoa(i)
 		if i > 0 && nd.Pick("stop-before"+s, 2) == 1 {
 			break
